@@ -32,7 +32,7 @@ from ..engine.resolver import ClassInfo, FuncInfo, Program, body_walk
 from ..engine.normalize import positional
 from ..engine.util import canon, method_call, u
 from ._c06_util import (Flow, HelperCalls, cmp_eval, expr_guards, first_run_sync_name, indent_of, inline_all, lifted, names_eq, private_callee, pruned, seg, spliced, src_patch,
-                        stmt_patch, transitive_helpers, tri, truth_atom)
+                        select_ifexp, stmt_patch, transitive_helpers, tri, truth_atom)
 from .c13 import _self_fields, step_classes, step_interp
 
 ENGINE = "timeseries.formula_engine._formula_engine"
@@ -185,6 +185,9 @@ class Shunt:
             base = self.ev(e.value, env)
             if isinstance(base, _Stack) and u(e.slice) == "-1" and base.top is not None and not base.popped:
                 return base.top
+            if isinstance(base, _Stack) and (isinstance(e.slice, ast.Constant) and isinstance(e.slice.value, int)
+                                             or isinstance(e.slice, ast.UnaryOp) and isinstance(e.slice.operand, ast.Constant)):
+                raise _Decided("looks-below-the-top")  # the decision must be taken on the most recently stacked operator
             raise Unknown(u(e))
         if isinstance(e, ast.Compare):
             left = self.ev(e.left, env)
@@ -354,7 +357,8 @@ class Shunt:
                                    "shift" if not self.emit else "emit-without-pop")
                 if self.emit and pop:
                     raise _Decided("reduce")
-                raise AnalysisError(f"{self.fn.qual}: a pass of the unwinding loop neither stops nor consumes the stacked operator")
+                # neither stopped nor consumed: the loop spins on the same stacked operator (or loses it half-way)
+                raise _Decided("emit-without-pop" if self.emit else "pop-without-emit-and-continue" if pop else "stuck")
             elif isinstance(s, ast.Break):
                 return "break", None
             elif isinstance(s, ast.Continue):
@@ -439,10 +443,11 @@ def check_prec(run: Run, prog: Program) -> None:
     run.check(decision(fn, table, "(", ")", prog) == "discard", "C05.PREC", fn.qual, "stack top `(`, incoming `)`",
               "a closing parenthesis does not discard its matching open parenthesis (and stop there)",
               node=fn.node, file=fn.file)
-    for new in BIN + ("(",):
-        d = decision(fn, table, "+", "(", prog) if new == "(" else None
-    run.check(decision(fn, table, "*", "(", prog) == "shift", "C05.PREC", fn.qual, "incoming `(` is always shifted",
-              "an open parenthesis triggers reductions", node=fn.node, file=fn.file)
+    for prev in BIN + ("(", "max", "min", "consumption", "production"):
+        d = decision(fn, table, prev, "(", prog)
+        run.check(d == "shift", "C05.PREC", fn.qual, f"stack top `{prev}`, incoming `(` -> {d}",
+                  "an open parenthesis triggers reductions (it must always be shifted)", node=fn.node, file=fn.file,
+                  instance=f"({prev}, ( ) -> {d}")
     # functions bind tighter than any binary operator: `( X ) min Y + Z` never reduces across
     for f_op in ("max", "min", "consumption", "production"):
         for new in BIN + (")",):
@@ -525,6 +530,10 @@ def check_tab(run: Run, prog: Program) -> None:
     # read in), whatever the spelling of the classification (in / not in / ==, literal tuples or module constants)
     tk_scope = [tk.node] + [h.node for h in transitive_helpers(Flow(prog, tk))]
     tfl = Flow(prog, inline_all(prog, tk))
+    for nm in sorted(getattr(tfl.fn.node, "_inlined", ())):
+        hm = tk.cls.methods.get(nm) if tk.cls is not None else None
+        if hm is not None and any(isinstance(x, ast.Call) and u(x.func) == "Token" for x in ast.walk(hm.node)):
+            run.analysed(hm.qual)  # the classification lives (partly) there
     tmod = tk.module
 
     def const_set(e: ast.AST) -> set[Any] | None:
@@ -545,26 +554,52 @@ def check_tab(run: Run, prog: Program) -> None:
             oper_sites.append((nid, tfl.origin(a["value"], nid)))
     cands = {x.value for nd in tk_scope + list(tmod.assigns.values()) for x in ast.walk(nd)
              if isinstance(x, ast.Constant) and isinstance(x.value, str) and len(x.value) == 1} | {k for k in table if len(k) == 1}
+    def char_is(ch: str, vo: list[Any]) -> Any:
+        """Scenario "the character under classification is `ch`" (vo: the origins that denote that character)."""
+        def atom(e: ast.AST, nid: int) -> bool | None:
+            if not (isinstance(e, ast.Compare) and len(e.ops) == 1):
+                return None
+            for x, y in ((e.left, e.comparators[0]), (e.comparators[0], e.left)):
+                xo = tfl.origin(x, nid)
+                if xo and all(q.kind == "iter" for q in xo) and names_eq(xo, vo):
+                    cs = const_set(y)
+                    if cs is None:
+                        return None
+                    op = e.ops[0]
+                    if isinstance(op, (ast.Eq, ast.NotEq)) and len(cs) == 1:
+                        return (ch in cs) == isinstance(op, ast.Eq)
+                    if isinstance(op, (ast.In, ast.NotIn)) and x is e.left:
+                        return (ch in cs) == isinstance(op, ast.In)
+            return None
+        return lifted(tfl, atom)
+
     ops: set[str] = set()
     for ch in sorted(cands):
         for site, vo in oper_sites:
-            def atom(e: ast.AST, nid: int, ch: str = ch, vo: list[Any] = vo) -> bool | None:
-                if not (isinstance(e, ast.Compare) and len(e.ops) == 1):
-                    return None
-                for x, y in ((e.left, e.comparators[0]), (e.comparators[0], e.left)):
-                    xo = tfl.origin(x, nid)
-                    if xo and all(q.kind == "iter" for q in xo) and names_eq(xo, vo):
-                        cs = const_set(y)
-                        if cs is None:
-                            return None
-                        op = e.ops[0]
-                        if isinstance(op, (ast.Eq, ast.NotEq)) and len(cs) == 1:
-                            return (ch in cs) == isinstance(op, ast.Eq)
-                        if isinstance(op, (ast.In, ast.NotIn)) and x is e.left:
-                            return (ch in cs) == isinstance(op, ast.In)
-                return None
-            if tfl.cfg.path(tfl.cfg.entry, [site], edge_ok=pruned(tfl.cfg, lifted(tfl, atom))) is not None:
+            if tfl.cfg.path(tfl.cfg.entry, [site], edge_ok=pruned(tfl.cfg, char_is(ch, vo))) is not None:
                 ops.add(ch)
+    # the character loop: blanks are skipped (never end the token stream), `#` starts a component id
+    chars = [h for h in tfl.cfg.nodes if h.kind == "for" and h.id in tfl.live and isinstance(h.ast.target, ast.Name)  # type: ignore[union-attr]
+             and u(h.ast.iter) == "self._formula"]  # type: ignore[union-attr]
+    ok_ws = ok_hash = len(chars) == 1
+    if ok_ws:
+        h = chars[0]
+        b0 = [m for m, lab in tfl.cfg.succ[h.id] if lab == "iter"]
+        vo_loop = tfl.origin(ast.Name(id=h.ast.target.id, ctx=ast.Load()), b0[0])  # type: ignore[union-attr]
+        for ch in (" ", "\n", "\t"):
+            e_ws = pruned(tfl.cfg, char_is(ch, vo_loop), normal_only=False)
+            ok_ws = ok_ws and tfl.cfg.path(b0[0], [h.id], edge_ok=e_ws) is not None \
+                and tfl.cfg.path(b0[0], [tfl.cfg.exit, tfl.cfg.raise_exit], avoid=[h.id], edge_ok=e_ws) is None
+        metric_sites = [nid for nid, c in tfl.calls(lambda c: u(c.func) == "Token")
+                        if u(positional(c, ["type", "value"]).get("type")) == "TokenType.COMPONENT_METRIC"]
+        e_hash = pruned(tfl.cfg, char_is("#", vo_loop))
+        ok_hash = bool(metric_sites) and tfl.cfg.path(b0[0], metric_sites, edge_ok=e_hash) is not None \
+            and not any(tfl.cfg.path(b0[0], [site], edge_ok=e_hash) is not None for site, _vo in oper_sites)
+    run.check(ok_ws, "C05.TAB", tk.qual, "whitespace between tokens is skipped",
+              "a blank, tab or newline ends (or breaks) the token stream instead of being skipped: the rest of the formula is lost",
+              node=tk.node, file=tk.file)
+    run.check(ok_hash, "C05.TAB", tk.qual, "`#` starts a component-metric token",
+              "`#` is not tokenised as a component metric", node=tk.node, file=tk.file)
     run.check(ops == {"+", "-", "*", "/", "(", ")"} and ops <= set(table), "C05.TAB", tk.qual,
               f"tokenizer operators {sorted(ops)}",
               "the tokenizer's operator characters are not exactly + - * / ( ) or lack a precedence",
@@ -617,6 +652,22 @@ def check_tab(run: Run, prog: Program) -> None:
             ok = len(oa) == 1 and tok_value(oa.get(oparams[0]), on) \
                 and isinstance(cid, ast.Call) and u(cid.func) == "int" and len(cid.args) == 1 and tok_value(cid.args[0], cnid) \
                 and naz is not None and all(o.kind == "param" and o.name == "nones_are_zeros" for o in ffl.origin(naz, mn))
+    if ok:
+        def type_is(kind: str) -> Any:
+            def atom(e: ast.AST, nid: int) -> bool | None:
+                if isinstance(e, ast.Compare) and len(e.ops) == 1 and isinstance(e.ops[0], (ast.Eq, ast.NotEq, ast.Is, ast.IsNot)):
+                    for x, y in ((e.left, e.comparators[0]), (e.comparators[0], e.left)):
+                        xo = ffl.origin1(x, nid)
+                        if xo is not None and xo.kind == "expr" and isinstance(xo.node, ast.Attribute) and xo.node.attr == "type" \
+                                and all(q.kind == "iter" and q.nid == lp.id for q in ffl.origin(xo.node.value, xo.nid)) \
+                                and u(y).startswith("TokenType."):
+                            same = u(y) == f"TokenType.{kind}"
+                            return same if isinstance(e.ops[0], (ast.Eq, ast.Is)) else not same
+                return None
+            return pruned(ffl.cfg, lifted(ffl, atom))
+        e_op, e_me = type_is("OPER"), type_is("COMPONENT_METRIC")
+        ok = ffl.cfg.path(body0[0], [on], edge_ok=e_op) is not None and ffl.cfg.path(body0[0], [mn], edge_ok=e_op) is None \
+            and ffl.cfg.path(body0[0], [mn], edge_ok=e_me) is not None and ffl.cfg.path(body0[0], [on], edge_ok=e_me) is None
     run.check(ok, "C05.TAB", fs.qual, "every token pushed in order",
               "tokens are not pushed one by one in input order with their own value", node=fs.node, file=fs.file)
     # HO builders handle what _push can emit
@@ -624,6 +675,7 @@ def check_tab(run: Run, prog: Program) -> None:
     emitted = {n.attr for n in ast.walk(push.node) if isinstance(n, ast.Attribute) and u(n.value) == "TokenType"}
     for cname, exc in (("HigherOrderFormulaBuilder", set()), ("HigherOrderFormulaBuilder3Phase", {"CONSTANT"})):
         b = prog.func(f"{ENGINE}:{cname}.build")
+        run.analysed(b.qual)
         handled = {n.attr for n in ast.walk(b.node) if isinstance(n, ast.Attribute) and u(n.value) == "TokenType"}
         run.check(emitted - exc <= handled, "C05.TAB", b.qual, f"build handles {sorted(handled)}",
                   f"the builder can hold {sorted(emitted)} tokens but build() handles only {sorted(handled)}",
@@ -645,6 +697,7 @@ def check_step(run: Run, prog: Program) -> None:
         if key not in ("+", "-", "*", "/", "max", "min", "consumption", "production"):
             continue
         fn = cls.methods["apply"]
+        run.analysed(fn.qual)
         n += 1
         interp = step_interp(prog, fn, _self_fields)
         param = fn.params[1]
@@ -684,8 +737,9 @@ def check_step(run: Run, prog: Program) -> None:
                 ok = res is a or res is b
                 why = f"result `{getattr(res, 'expr', res)}` is not one of the operands"
                 if ok:
-                    rel = interp.order_facts.get((min(a.id, b.id), max(a.id, b.id)))
-                    # rel = sign of (lower id ? higher id): a has the lower id
+                    facts = (out.state or {}).get("order", {})
+                    rel = facts.get((min(a.id, b.id), max(a.id, b.id)))
+                    # rel = sign of (lower id ? higher id) on this path: a has the lower id
                     if rel is not None and rel != 0:
                         a_bigger = rel > 0
                         want = (a if a_bigger else b) if key == "max" else (b if a_bigger else a)
@@ -700,9 +754,15 @@ def check_step(run: Run, prog: Program) -> None:
                 else:
                     ok = False
                     why = f"result `{getattr(res, 'expr', res)}` is neither `{want_pos}` nor zero"
-                if ok and isinstance(res, F) and res.expr == want_pos:
-                    # must be the non-negative side: the compared value was > 0 (or equal)
-                    pass
+                if ok and isinstance(res, F):
+                    # ... and it is the larger of the two values that were compared (the operand vs. zero)
+                    facts = (out.state or {}).get("order", {})
+                    mine = [(k, r) for k, r in facts.items() if res.id in k]
+                    if len(mine) == 1 and mine[0][1] != 0:
+                        (lo, _hi), r = mine[0]
+                        sign = r if res.id == lo else -r
+                        ok = sign > 0
+                        why = f"the result `{res.expr}` is the smaller of the operand and zero (the step clips the wrong side)"
             run.check(ok, "C05.STEP", fn.qual, f"{cls.name}.apply result",
                       f"step `{key}` {why}", node=fn.node, file=fn.file, instance=inst)
     if n < 8:
@@ -852,6 +912,7 @@ def check_paren(run: Run, prog: Program) -> None:
     for meth, sym in (("__add__", "+"), ("__sub__", "-"), ("__mul__", "*"), ("__truediv__", "/"),
                       ("max", "max"), ("min", "min")):
         m = cls.methods[meth]
+        run.analysed(m.qual)
         rets = [r for r in body_walk(m.node) if isinstance(r, ast.Return)]
         rv = rets[0].value if len(rets) == 1 else None
         pa = positional(rv, ["oper", "other"]) if isinstance(rv, ast.Call) and method_call(rv, "self", "_push") else {}
@@ -865,6 +926,7 @@ def check_paren(run: Run, prog: Program) -> None:
         m = prog.resolve_method(eng, meth)
         if m is None:
             raise AnalysisError(f"FormulaEngine.{meth} not found")
+        run.analysed(m.qual)
         rets = [r for r in body_walk(m.node) if isinstance(r, ast.Return)]
         txt = u(rets[0].value).replace(" ", "") if rets else ""
         arg = f"({m.params[1]})" if len(m.params) > 1 else "()"
@@ -1115,6 +1177,7 @@ def check_eval(run: Run, prog: Program) -> None:
               "a metric used twice does not share one fetcher (its stream would be read twice per round)",
               node=pm.node, file=pm.file)
     pc = prog.func(f"{ENGINE}:FormulaBuilder.push_constant")
+    run.analysed(pc.qual)
     cfl = Flow(prog, spliced(prog, pc))
     apps = cfl.calls(lambda c: isinstance(c.func, ast.Attribute) and u(c.func.value) in ("self._steps", "self._build_stack"))
     ok = len(apps) == 1 and method_call(apps[0][1], "self._steps", "append") and len(apps[0][1].args) == 1 \
@@ -1275,9 +1338,10 @@ def check_tok(run: Run, prog: Program) -> None:
         return e.attr if isinstance(e, ast.Attribute) and u(e.value) == "self" else None
 
     reads = 0
+    run.analysed(init.qual)
+    p_attrs: set[str] = set()
     for m in cls.methods.values():
         fl = Flow(prog, m)
-        run.analysed(m.qual)
         for n in fl.cfg.nodes:
             if n.ast is None or n.id not in fl.live:
                 continue
@@ -1293,6 +1357,25 @@ def check_tok(run: Run, prog: Program) -> None:
                         continue
                     s_attr, p_attr = self_attr(x.value), self_attr(idx)
                     reads += 1
+                    run.analysed(m.qual)
+                    p_attrs.add(p_attr or "")
+                    # the consuming read (__next__) moves on by exactly one character on its way out; peek does not move
+                    moves = [k.id for k in fl.cfg.nodes if k.id in fl.live and any(
+                        isinstance(t, ast.Attribute) and t.attr == p_attr and u(t.value) == "self" for t in fl._writes(k.id))]
+                    by_one = all(isinstance(fl.cfg.nodes[k].ast, ast.AugAssign) and isinstance(fl.cfg.nodes[k].ast.op, ast.Add)  # type: ignore[union-attr]
+                                 and isinstance(fl.cfg.nodes[k].ast.value, ast.Constant) and fl.cfg.nodes[k].ast.value.value == 1  # type: ignore[union-attr]
+                                 for k in moves)
+                    nrm = lambda a_, b_, lab: not lab.startswith("exc:")  # noqa: E731
+                    if m.name == "__next__":
+                        adv_ok = bool(moves) and by_one and fl.cfg.path(n.id, [fl.cfg.exit], avoid=moves, edge_ok=nrm) is None \
+                            and not any(fl.cfg.path(k, moves, include_src=False) is not None for k in moves) \
+                            and fl.cfg.path(fl.cfg.entry, moves, avoid=[n.id]) is None
+                    else:
+                        adv_ok = not moves
+                    run.check(adv_ok, "C05.TOK", m.qual, f"self.{p_attr} advances by one per consumed character",
+                              "the position does not advance by exactly one for each character handed out (characters are "
+                              "repeated, skipped or read backwards)", node=x, file=m.file,
+                              instance=f"{m.qual}: advance after read #{reads}")
                     bounds: set[str] = set()
 
                     def atom_for(pos: int, lim: int) -> Any:
@@ -1360,9 +1443,221 @@ def check_tok(run: Run, prog: Program) -> None:
                               instance=f"{m.qual}: self.{s_attr}[self.{p_attr}] read #{reads}")
     if reads < 2:
         raise AnalysisError(f"C05.TOK: only {reads} indexed reads found in StringIter")
-    p_init = stored("_pos") if any(True for _ in stored("_pos")) else []
+    p_init = [x for a_ in sorted(p_attrs) for x in stored(a_)]
     run.check(bool(p_init) and all(isinstance(v, ast.Constant) and v.value == 0 for _n, v in p_init), "C05.TOK", init.qual,
               "reading starts at position 0", "the iterator does not start at the first character", node=init.node, file=init.file)
+
+
+def check_ho_build(run: Run, prog: Program) -> None:
+    """C05.TAB (composition API): build() replays the recorded token stream into FormulaBuilder(s) -- decided per
+    token kind on the paths of the replay loop: a COMPONENT_METRIC token reaches push_metric (only), an OPER token
+    push_oper(<its value>), a CONSTANT token push_constant(<its value / base value>); the three-phase builder does
+    so for each of its three per-phase builders and hands them on in phase order."""
+    want = {"COMPONENT_METRIC": "push_metric", "OPER": "push_oper", "CONSTANT": "push_constant"}
+    for cname, kinds, phases in (("HigherOrderFormulaBuilder", ("COMPONENT_METRIC", "OPER", "CONSTANT"), 1),
+                                 ("HigherOrderFormulaBuilder3Phase", ("COMPONENT_METRIC", "OPER"), 3)):
+        raw = prog.func(f"{ENGINE}:{cname}.build")
+        run.analysed(raw.qual)
+        fl = Flow(prog, spliced(prog, raw))
+        cfg = fl.cfg
+        loops = [h for h in cfg.nodes if h.kind == "for" and h.id in fl.live and isinstance(h.ast.target, ast.Tuple)  # type: ignore[union-attr]
+                 and len(h.ast.target.elts) == 2 and all(o.kind == "expr" and u(o.node) == "self._steps" for o in fl.origin(h.ast.iter, h.id))]  # type: ignore[union-attr]
+        ok = len(loops) == 1
+        detail = "no replay loop over the recorded tokens"
+        if ok:
+            lp = loops[0]
+            body0 = [m for m, lab in cfg.succ[lp.id] if lab == "iter"]
+
+            def part(e: ast.AST, nid: int, idx: int) -> bool:
+                o = fl.origin(e, nid)
+                return bool(o) and all(q.kind == "iter" and q.nid == lp.id and q.idx == idx for q in o)
+
+            def kind_is(kind: str) -> Any:
+                def atom(e: ast.AST, nid: int) -> bool | None:
+                    if isinstance(e, ast.Compare) and len(e.ops) == 1 and isinstance(e.ops[0], (ast.Eq, ast.NotEq, ast.Is, ast.IsNot)):
+                        for x, y in ((e.left, e.comparators[0]), (e.comparators[0], e.left)):
+                            if part(x, nid, 0) and u(y).startswith("TokenType."):
+                                same = u(y) == f"TokenType.{kind}"
+                                return same if isinstance(e.ops[0], (ast.Eq, ast.Is)) else not same
+                    return None
+                return pruned(cfg, lifted(fl, atom))
+
+            pushes = [(nid, c) for nid, c in fl.calls(lambda c: isinstance(c.func, ast.Attribute) and c.func.attr in want.values())]
+            for kind in kinds:
+                e_k = kind_is(kind)
+                reach = [(nid, c) for nid, c in pushes if cfg.path(body0[0], [nid], edge_ok=e_k) is not None]
+                names = {c.func.attr for _n, c in reach}  # type: ignore[union-attr]
+                ok = ok and names == {want[kind]} and (len(reach) == 1 or (kind == "CONSTANT" and phases == 1))
+                detail = f"a {kind} token is replayed through {sorted(names) or 'nothing'} instead of {want[kind]}() exactly once"
+                if not ok:
+                    break
+                nid, c = reach[0]
+                # the token may not slip through without its push (per phase: inside an unconditional loop over the phases)
+                inner = [h for h in cfg.nodes if h.kind == "for" and h.id != lp.id and h.id in fl.live
+                         and nid in cfg.reachable([m for m, lab in cfg.succ[h.id] if lab == "iter"], avoid=[h.id])]
+                anchors = [inner[0].id] if inner else [n2 for n2, _c in reach]
+                ok = body0[0] in anchors or cfg.path(body0[0], [lp.id], avoid=anchors, edge_ok=e_k) is None
+                detail = f"a {kind} token can pass the replay loop without being pushed"
+                if ok and len(reach) > 1:
+                    ok = not any(cfg.path(n1, [n2], avoid=[lp.id], include_src=False) is not None for n1, _a in reach for n2, _b in reach)
+                    detail = f"a {kind} token can be pushed twice"
+                if ok and phases == 3:
+                    base = c.func.value  # type: ignore[union-attr]
+                    bo = fl.origin1(base, nid)
+                    per_phase = len(inner) == 1 and (
+                        (u(inner[0].ast.iter) == "range(3)" and bo is not None and bo.kind == "expr" and isinstance(bo.node, ast.Subscript)  # type: ignore[union-attr]
+                         and all(q.kind == "iter" and q.nid == inner[0].id for q in fl.origin(bo.node.slice, bo.nid)))
+                        or (bo is not None and bo.kind == "iter" and bo.nid == inner[0].id))
+                    ok = per_phase and not any(isinstance(x, (ast.Break, ast.Continue)) for st in inner[0].ast.body for x in ast.walk(st))  # type: ignore[union-attr]
+                    detail = f"a {kind} token is not pushed into each of the three per-phase builders"
+                if ok and kind == "OPER":
+                    a = positional(c, ["oper"])
+                    ok = len(a) == 1 and part(a["oper"], nid, 1)
+                    detail = "push_oper is not given the token's own value"
+                if ok and kind == "CONSTANT":
+                    # a Quantity is pushed as its base value, a plain number as it is -- whether that is decided by a
+                    # conditional expression in the argument or by an if / else around two calls
+                    def q_is(is_q: bool) -> Any:
+                        def atom(e: ast.AST, n3: int) -> bool | None:
+                            if isinstance(e, ast.Call) and u(e.func) == "isinstance" and len(e.args) == 2 and part(e.args[0], n3, 1) \
+                                    and u(e.args[1]).replace(" ", "") in ("Quantity", "(Quantity,)"):
+                                return is_q
+                            if isinstance(e, ast.Call) and u(e.func) == "isinstance" and len(e.args) == 2 and part(e.args[0], n3, 1) \
+                                    and u(e.args[1]).replace(" ", "") in ("float", "(float,int)", "(int,float)", "int"):
+                                return not is_q
+                            return kind_atom(e, n3)
+                        return lifted(fl, atom)
+
+                    def kind_atom(e: ast.AST, n3: int) -> bool | None:
+                        if isinstance(e, ast.Compare) and len(e.ops) == 1 and isinstance(e.ops[0], (ast.Eq, ast.NotEq, ast.Is, ast.IsNot)):
+                            for x, y in ((e.left, e.comparators[0]), (e.comparators[0], e.left)):
+                                if part(x, n3, 0) and u(y).startswith("TokenType."):
+                                    same = u(y) == "TokenType.CONSTANT"
+                                    return same if isinstance(e.ops[0], (ast.Eq, ast.Is)) else not same
+                        return None
+
+                    plain = True
+                    for is_q in (True, False):
+                        at = q_is(is_q)
+                        e_q = pruned(cfg, at)
+                        live = [(n4, c4) for n4, c4 in reach if cfg.path(body0[0], [n4], edge_ok=e_q) is not None]
+                        plain = plain and len(live) >= 1
+                        for n4, c4 in live:
+                            v = positional(c4, ["value"]).get("value")
+                            o = fl.origin1(v, n4) if v is not None else None
+                            v2, vn = (o.node, o.nid) if o is not None and o.kind == "expr" else (v, n4)
+                            if v is not None and part(v, n4, 1):
+                                v2, vn = v, n4
+                            leaves = select_ifexp(v2, lambda e, vn=vn, at=at: at(e, vn)) if v2 is not None else []
+                            for leaf in leaves:
+                                good = (isinstance(leaf, ast.Attribute) and leaf.attr == "base_value" and part(leaf.value, vn, 1)) if is_q \
+                                    else part(leaf, vn, 1)
+                                plain = plain and good
+                            plain = plain and bool(leaves)
+                    ok = plain
+                    detail = "push_constant is not given the token's value (its base value for a Quantity)"
+                if not ok:
+                    break
+        if ok and phases == 3:
+            ctor = [(nid, c) for nid, c in fl.calls(lambda c: u(c.func).split("[")[0] == "FormulaEngine3Phase")]
+            ok = len(ctor) == 1
+            if ok:
+                nid, c = ctor[0]
+                tup = next((a for a in list(c.args) + [k.value for k in c.keywords] if isinstance(a, (ast.Tuple, ast.List)) and len(a.elts) == 3), None)
+                o = None
+                if tup is None:
+                    for a in list(c.args) + [k.value for k in c.keywords]:
+                        o = fl.origin1(a, nid)
+                        if o is not None and o.kind == "expr" and isinstance(o.node, (ast.Tuple, ast.List)) and len(o.node.elts) == 3:
+                            tup = o.node
+                            break
+                idxs = []
+                for e in (tup.elts if tup is not None else []):
+                    if isinstance(e, ast.Call) and isinstance(e.func, ast.Attribute) and e.func.attr == "build" \
+                            and isinstance(e.func.value, ast.Subscript) and isinstance(e.func.value.slice, ast.Constant):
+                        idxs.append(e.func.value.slice.value)
+                ok = idxs == [0, 1, 2] or (tup is None and any(
+                    isinstance(a, (ast.ListComp, ast.GeneratorExp, ast.Call)) for a in list(c.args) + [k.value for k in c.keywords]))
+            detail = "the three per-phase engines are not handed on in phase order"
+        run.check(ok, "C05.TAB", raw.qual, "tokens replayed into the builder(s) by kind", detail, node=raw.node, file=raw.file)
+
+
+def check_digits(run: Run, prog: Program) -> None:
+    """C05.TOK (component ids): the number after `#` is read digit by digit -- while the next character is a
+    digit it is appended to the result and consumed exactly once, the first non-digit ends the number without
+    being consumed, and what is returned is what was accumulated.  The reader is bound by role: the Tokenizer
+    method whose result becomes the value of the COMPONENT_METRIC token."""
+    tcls = prog.cls(f"{TOK}:Tokenizer")
+    readers = set()
+    for m in tcls.methods.values():
+        for c in (x for x in ast.walk(m.node) if isinstance(x, ast.Call) and u(x.func) == "Token"):
+            a = positional(c, ["type", "value"])
+            v = a.get("value")
+            if u(a.get("type")) == "TokenType.COMPONENT_METRIC" and isinstance(v, ast.Call) and isinstance(v.func, ast.Attribute) \
+                    and u(v.func.value) == "self" and v.func.attr in tcls.methods:
+                readers.add(v.func.attr)
+    if len(readers) != 1:
+        raise AnalysisError(f"{tcls.qual}: no single method reads the component id ({sorted(readers)})")
+    fn = tcls.methods[readers.pop()]
+    run.analysed(fn.qual)
+    fl = Flow(prog, fn)
+    cfg = fl.cfg
+
+    def is_peek(e: ast.AST | None) -> bool:
+        return isinstance(e, ast.Call) and isinstance(e.func, ast.Attribute) and e.func.attr == "peek" and u(e.func.value) == "self._formula"
+
+    chars = {x.target.id for x in ast.walk(fn.node) if isinstance(x, ast.NamedExpr) and is_peek(x.value) and isinstance(x.target, ast.Name)} | \
+        {x.targets[0].id for x in ast.walk(fn.node) if isinstance(x, ast.Assign) and is_peek(x.value) and isinstance(x.targets[0], ast.Name)}
+
+    def is_char(e: ast.AST) -> bool:
+        return (isinstance(e, ast.Name) and e.id in chars) or (isinstance(e, ast.NamedExpr) and is_peek(e.value)) or is_peek(e)
+
+    def scene(digit: bool) -> Any:
+        def atom(e: ast.AST, _nid: int) -> bool | None:
+            if isinstance(e, ast.Call) and isinstance(e.func, ast.Attribute) and e.func.attr == "isdigit" and is_char(e.func.value):
+                return digit
+            ta = truth_atom(e)
+            if ta is not None and is_char(ta[0]):
+                return not ta[1]  # there is a next character
+            if is_char(e):
+                return True
+            return None
+        return pruned(cfg, lifted(fl, atom))
+
+    loops = [w for w in cfg.nodes if w.kind == "while" and w.id in fl.live]
+    acc = [n.id for n in cfg.nodes if n.id in fl.live and (
+        (isinstance(n.ast, ast.AugAssign) and isinstance(n.ast.target, ast.Name) and is_char(n.ast.value))
+        or (isinstance(n.ast, ast.Expr) and isinstance(n.ast.value, ast.Call) and method_call(n.ast.value, None, "append")
+            and len(n.ast.value.args) == 1 and is_char(n.ast.value.args[0])))]
+    eat = [nid for nid, c in fl.calls(lambda c: (u(c.func) == "next" and len(c.args) == 1 and u(c.args[0]) == "self._formula")
+                                      or method_call(c, "self._formula", "__next__"))]
+    ok = len(loops) == 1 and len(acc) == 1 and len(eat) == 1 and bool(chars)
+    detail = "no loop that accumulates and consumes one character at a time"
+    if ok:
+        w = loops[0]
+        a_node = cfg.nodes[acc[0]].ast
+        plus = not isinstance(a_node, ast.AugAssign) or isinstance(a_node.op, ast.Add)
+        yes, no = scene(True), scene(False)
+        t_yes = yes(w.id, -1, "true") and not yes(w.id, -1, "false")
+        body = [m for m, lab in cfg.succ[w.id] if lab == "true"]
+        # a digit: the loop goes on, and on the way round it is appended and consumed (each exactly once)
+        ok = plus and t_yes and bool(body) and cfg.path(body[0], [w.id], edge_ok=yes) is not None \
+            and all(body[0] == k or cfg.path(body[0], [w.id], avoid=[k], edge_ok=yes) is None for k in (acc[0], eat[0])) \
+            and cfg.path(body[0], [cfg.exit], avoid=[w.id], edge_ok=yes) is None \
+            and all(cfg.path(k, [k], avoid=[w.id], include_src=False) is None for k in (acc[0], eat[0]))
+        detail = "a digit of the component id is not appended and consumed exactly once (or ends the number)"
+        if ok:
+            # a non-digit: the number ends here, nothing is appended or consumed
+            leave = no(w.id, -1, "false") and not no(w.id, -1, "true")
+            ok = leave or (cfg.path(body[0], acc + eat, edge_ok=no) is None and cfg.path(body[0], [w.id], edge_ok=no) is None)
+            detail = "a character that is not a digit is appended to / consumed with the component id, or does not end it"
+        if ok:
+            tgt = a_node.target.id if isinstance(a_node, ast.AugAssign) else u(a_node.value.func.value)  # type: ignore[union-attr]
+            rets = fl.returns()
+            ok = bool(rets) and all((lambda v: u(v) == tgt or (isinstance(v, ast.Call) and method_call(v, None, "join")
+                                                              and len(v.args) == 1 and u(v.args[0]) == tgt))(cfg.nodes[r].ast.value) for r in rets)  # type: ignore[union-attr]
+            detail = "what is returned is not the accumulated digits"
+    run.check(ok, "C05.TOK", fn.qual, "component id: digits appended and consumed one by one", detail, node=fn.node, file=fn.file)
 
 
 def build_controls(prog: Program) -> list[tuple[str, str, str, str, str]]:
@@ -1467,10 +1762,35 @@ def build_controls(prog: Program) -> list[tuple[str, str, str, str, str]]:
                 arg = seg(si.module, c.args[0])
                 add("end position from the stripped string", TOK, stmt_patch(si, c, lambda t, arg=arg: t.replace(f"len({arg})", f"len({arg}.strip())", 1)), "C05.TOK")
                 break
+    # TAB / TOK: a blank ends the token stream; an id digit is not consumed; the position is not advanced; the
+    # composition API drops operator tokens
+    tkn = prog.func(f"{TOK}:Tokenizer.__next__")
+    for st_ in (x for x in ast.walk(tkn.node) if isinstance(x, ast.Continue)):
+        add("a blank ends the token stream", TOK, stmt_patch(tkn, st_, lambda t: f"{indent_of(t)}break\n"), "C05.TAB")
+        break
+    tcls = prog.cls(f"{TOK}:Tokenizer")
+    done_d = False
+    for m in tcls.methods.values():
+        for st_ in (x for x in ast.walk(m.node) if isinstance(x, ast.Expr) and isinstance(x.value, ast.Call)
+                    and u(x.value.func) == "next" and len(x.value.args) == 1 and u(x.value.args[0]) == "self._formula"):
+            add("id digit not consumed", TOK, stmt_patch(m, st_, lambda t: f"{indent_of(t)}pass\n"), "C05.TOK")
+            done_d = True
+            break
+        if done_d:
+            break
+    sn = prog.resolve_method(prog.cls(f"{TOK}:StringIter"), "__next__")
+    if sn is not None:
+        for st_ in (x for x in ast.walk(sn.node) if isinstance(x, ast.AugAssign)):
+            add("position not advanced", TOK, stmt_patch(sn, st_, lambda t: f"{indent_of(t)}pass\n"), "C05.TOK")
+            break
+    hb = prog.func(f"{ENGINE}:HigherOrderFormulaBuilder.build")
+    for st_ in (x for x in ast.walk(hb.node) if isinstance(x, ast.Expr) and isinstance(x.value, ast.Call) and method_call(x.value, None, "push_oper")):
+        add("composition drops operator tokens", ENGINE, stmt_patch(hb, st_, lambda t: f"{indent_of(t)}pass\n"), "C05.TAB")
+        break
     # ALIGN: drain loops of the first-run synchronisation interchanged
     add("drain loops interchanged", EVAL, interchange_patch(prog), "C05.ALIGN")
     if len(out) < 6:
-        raise AnalysisError(f"C05: only {len(out)} of 9 seeded controls could be derived from the source ({[o[0] for o in out]})")
+        raise AnalysisError(f"C05: only {len(out)} of 13 seeded controls could be derived from the source ({[o[0] for o in out]})")
     return out
 
 
@@ -1481,6 +1801,8 @@ def run_rules(run: Run, prog: Program) -> None:
     check_paren(run, prog)
     check_eval(run, prog)
     check_tok(run, prog)
+    check_digits(run, prog)
+    check_ho_build(run, prog)
     from .c06 import check_sync as first_run_sync
 
     first_run_sync(run, prog, rule="C05.ALIGN")
@@ -1507,7 +1829,7 @@ def check(run: Run, prog: Program, tier: str) -> str:
     run.floor("C05.STEP", 10)
     run.floor("C05.PAREN", 40)
     run.floor("C05.EVAL", 6)
-    run.floor("C05.TOK", 3)
+    run.floor("C05.TOK", 6)
     run.floor("C05.ALIGN", 4)
     from ..engine.controls import run_controls
 
